@@ -761,6 +761,55 @@ def netlist_tie(ctx, rng, n_steps):
     return bad
 
 
+def design_term_tie(ctx):
+    """the hand-written netlist terms of Proofs/C09/Netlist.v (`counter_design`, `treg_design`: the subjects of the C09_*_netlist_refines
+    theorems) against what the constructors REALLY build now: the live block is dumped (netlist.Dump) and the instantiated hand-written term
+    must be convertible to the dump (`reflexivity`: leaf functions, wire ids, leaf order, widths, clock driver).  Ports are created in the
+    order the terms assume (reset, inc, q / t, e, r, q).  Returns the list of configurations whose terms differ."""
+    import os, re
+    py4hw = P()
+    defs, goals, labels = [], [], []
+    def add(label, dp, term, st0):
+        k = len(labels); labels.append(label)
+        defs.append(dp.coq_design('dump_%d' % k))
+        goals.append('Goal True. tryif (assert (%s = dump_%d /\\ %s = dump_%d_st0) by (split; reflexivity)) then idtac "@@SAME %d" else idtac "@@DIFF %d". Abort.' % (term, k, st0, k, k, k))
+    for (w, wc, hi, hr) in [(4, 1, True, True), (1, 1, True, False), (3, 1, False, True), (2, 1, False, False), (7, 2, True, True), (8, 3, True, True)]:
+        with quiet():
+            hw = py4hw.HWSystem()
+            rs = hw.wire('reset', wc) if hr else None
+            inc = hw.wire('inc', wc) if hi else None
+            q = hw.wire('q', w)
+            py4hw.logic.arithmetic.Counter(hw, 'cnt', rs, inc, q)
+            dp = netlist.Dump(hw)
+        add('Counter(w=%d, wc=%d, inc=%s, reset=%s)' % (w, wc, hi, hr), dp, 'counter_design %d %d %d %s %s' % (w, wc, wc, blit(hi), blit(hr)), 'counter_st0')
+        ctx.count(('design_term', 'Counter', w, wc, hi, hr))
+    for (wt, we, wr, he, hr) in [(1, 1, 1, True, True), (1, 1, 1, True, False), (1, 1, 1, False, True), (1, 1, 1, False, False), (2, 2, 3, True, True)]:
+        with quiet():
+            hw = py4hw.HWSystem()
+            t = hw.wire('t', wt)
+            e = hw.wire('e', we) if he else None
+            r = hw.wire('r', wr) if hr else None
+            q = hw.wire('q', 1)
+            py4hw.logic.storage.TReg(hw, 'treg', t, q, enable=e, reset=r)
+            dp = netlist.Dump(hw)
+        add('TReg(wt=%d, we=%d, wr=%d, e=%s, r=%s)' % (wt, we, wr, he, hr), dp, 'treg_design 1 %d %d %d %s %s' % (wt, we, wr, blit(he), blit(hr)), 'counter_st0')
+        ctx.count(('design_term', 'TReg', wt, we, wr, he, hr))
+    tag = 'C09_designterms'
+    path = os.path.join(common.CASES, tag + '.v'); os.makedirs(common.CASES, exist_ok=True)
+    pre = ('From V Require Import Base.PyInt Gen.WireOps Gen.Helpers Gen.Prims Gen.Seq Model.SimKernel Model.Trace.\nFrom V Require Import Proofs.C09.Netlist.\n'
+           'From Coq Require Import List ZArith. Import ListNotations. Open Scope Z_scope.\n')
+    open(path, 'w').write(pre + '\n'.join(defs) + '\n' + '\n'.join(goals) + '\n')
+    rc, out = common.sh('timeout 600 coqc -Q . V Cases/%s.v' % tag, timeout=630, cwd=common.COQ)
+    for ext in ('.vo', '.vok', '.vos', '.glob'):
+        try: os.remove(os.path.join(common.CASES, tag + ext))
+        except OSError: pass
+    if rc != 0:
+        return [('all', 'Cases/%s.v does not compile against Proofs/C09/Netlist.v: %s' % (tag, out[-600:]))]
+    same = set(int(x) for x in re.findall(r'@@SAME (\d+)', out)); diff = set(int(x) for x in re.findall(r'@@DIFF (\d+)', out))
+    ctx.notes['design_terms_convertible_to_live_dumps'] = '%d of %d' % (len(same), len(labels))
+    return [(labels[k], 'hand-written netlist term is not convertible to the dump of the live block') for k in range(len(labels)) if k not in same]
+
+
 # ------------------------------------------------------------------ driver
 def sweep(ctx, tier_quick, only=None, boost=1):
     """returns (spec_failures, model_failures): lists of (case, model_diff, spec_diff)"""
@@ -903,6 +952,14 @@ def run(ctx):
         ctx.notes['netlist_tie_error'] = traceback.format_exc()[-1500:]
         nl_bad = [(('netlist', {}), 'error: %s' % ex)]
     ctx.log('netlist tie done: %s' % (nl_bad or 'ok'))
+    if r['ok'] and not missing:
+        try:
+            dt_bad = design_term_tie(ctx)
+        except Exception as ex:
+            ctx.notes['design_term_tie_error'] = traceback.format_exc()[-1500:]
+            dt_bad = [(('design_term', {}), 'error: %s' % ex)]
+        ctx.log('design-term tie (Proofs/C09/Netlist.v terms = live dumps) done: %s' % (dt_bad or 'ok'))
+        nl_bad = nl_bad + [(('design_term %s' % a, {}), b) for a, b in dt_bad]
     tie_ok = not missing and r['ok'] and not model_f and not nl_bad
     if spec_f:
         report_spec_failures(ctx, spec_f)
@@ -922,7 +979,7 @@ def run(ctx):
             what = ('translator rejected %s: %s' % (missing, {k: ctx.gen['errors'].get(k) for k in missing}) if missing else
                     'proof obligation no longer checks: %s in %s' % (r.get('lemma'), r.get('file')) if not r['ok'] else
                     'block model and real block disagree (correspondence broken)' if model_f else
-                    'kernel model run of the dumped netlist and the real simulator disagree: %s' % (nl_bad[:2],))
+                    'kernel model run of the dumped netlist and the real simulator disagree, or a hand-written netlist term of Proofs/C09/Netlist.v no longer matches the constructor: %s' % (nl_bad[:2],))
             ex = None
             if model_f and isinstance(model_f[0][0], dict):
                 c, md, sd = min(model_f, key=lambda f: len(f[0]['hist']))
